@@ -818,15 +818,20 @@ class GroupBy:
             group_key = self.group_ikey[mask]
             mask_chunks = mask_chunks[first_chunk_in:]
         else:
+            if (
+                self.key_is_chunked
+                and mask is not None
+                and not pd.api.types.is_bool_dtype(mask)
+            ):
+                # integer positions may repeat or be unordered: only a contiguous key
+                # array selects rows the way array indexing does
+                self._unify_group_key_chunks()
+                group_key = self.group_ikey
             if self.key_is_chunked:
-                if not pd.api.types.is_bool_dtype(mask):
-                    # Fancy indexing does not work for chunked keys
-                    bool_mask = np.full(len(self), False)
-                    bool_mask[mask] = True
-                    mask = bool_mask
-                mask_chunks = array_split_with_chunk_handling(
-                    mask, self._group_key_lengths
-                )
+                if mask is not None:
+                    mask_chunks = array_split_with_chunk_handling(
+                        mask, self._group_key_lengths
+                    )
             else:
                 mask_chunks = [mask]
 
